@@ -288,7 +288,7 @@ pub fn stress(a: &Args) {
     let mut total_emits = 0u64;
     let mut sample_cfg = json!(null);
     for run in 0..runs {
-        let cap: Option<usize> = [None, Some(0), Some(1), Some(2), Some(3), Some(8), Some(1), Some(2)][rng.random_range(0..8)];
+        let cap: Option<usize> = [None, Some(0), Some(1), Some(2), Some(3), Some(8), Some(1), Some(2), Some(5), Some(6), Some(7)][rng.random_range(0..11)];
         let eh = rng.random_bool(0.6);
         let nprod = rng.random_range(1..=4u64);
         let per = rng.random_range(3..=30u64);
